@@ -403,20 +403,41 @@ impl ObjState for [Link] {
                     link.idx_flip
                 ));
             }
-            if link.idx_flip.is_real() && self[link.idx_flip.idx()].idx_flip != link.idx_curr {
-                errors.push(anyhow!(
-                    "Flipped link {} does not properly reference current link {}!",
-                    link.idx_flip,
-                    link.idx_curr
-                ));
+            // Validate that every referenced link is inside the network
+            for (idx_ref, name) in [
+                (link.idx_flip, "flip"),
+                (link.idx_next, "next"),
+                (link.idx_next_alt, "next alt"),
+                (link.idx_prev, "prev"),
+                (link.idx_prev_alt, "prev alt"),
+            ] {
+                if self.get(idx_ref.idx()).is_none() {
+                    errors.push(anyhow!(
+                        "Link {} references {} link {} which is outside the network of {} links!",
+                        link.idx_curr,
+                        name,
+                        idx_ref,
+                        self.len()
+                    ));
+                }
+            }
+            if let Some(link_flip) = self.get(link.idx_flip.idx()) {
+                if link.idx_flip.is_real() && link_flip.idx_flip != link.idx_curr {
+                    errors.push(anyhow!(
+                        "Flipped link {} does not properly reference current link {}!",
+                        link.idx_flip,
+                        link.idx_curr
+                    ));
+                }
             }
 
             // Validate next
             if link.idx_next.is_real() {
                 for (link_next, name) in [
-                    (&self[link.idx_next.idx()], "next link"),
-                    (&self[link.idx_next_alt.idx()], "next link alt"),
+                    (self.get(link.idx_next.idx()), "next link"),
+                    (self.get(link.idx_next_alt.idx()), "next link alt"),
                 ] {
+                    let Some(link_next) = link_next else { continue };
                     if !link_next.is_linked_prev(link.idx_curr) {
                         errors.push(anyhow!(
                             "Current link {} with {} {} prev idx {} and prev idx alt {} do not point back!",
@@ -447,9 +468,10 @@ impl ObjState for [Link] {
             // Validate prev
             if link.idx_prev.is_real() {
                 for (link_prev, name) in [
-                    (&self[link.idx_prev.idx()], "prev link"),
-                    (&self[link.idx_prev_alt.idx()], "prev link alt"),
+                    (self.get(link.idx_prev.idx()), "prev link"),
+                    (self.get(link.idx_prev_alt.idx()), "prev link alt"),
                 ] {
+                    let Some(link_prev) = link_prev else { continue };
                     if !link_prev.is_linked_next(link.idx_curr) {
                         errors.push(anyhow!(
                             "Current link {} with {} {} next idx {} and next idx alt {} do not point back!",
